@@ -64,6 +64,20 @@ impl AnySock {
             _ => panic!("unknown socket type {}", t),
         }
     }
+    /// close(): returns the number of errors it reported
+    pub async fn close(self) -> usize {
+        match self {
+            AnySock::Req(s) => s.close().await.len(),
+            AnySock::Rep(s) => s.close().await.len(),
+            AnySock::Dealer(s) => s.close().await.len(),
+            AnySock::Router(s) => s.close().await.len(),
+            AnySock::Push(s) => s.close().await.len(),
+            AnySock::Pull(s) => s.close().await.len(),
+            AnySock::Pub(s) => s.close().await.len(),
+            AnySock::Sub(s) => s.close().await.len(),
+            AnySock::XPub(s) => s.close().await.len(),
+        }
+    }
     pub fn backend(&self) -> Arc<dyn MultiPeerBackend> {
         match self {
             AnySock::Req(s) => s.backend(),
@@ -655,10 +669,15 @@ pub async fn run_scenario(sc: &Value) -> Vec<Value> {
     env.ev(json!({"ev":"reset","scen":sc.get("scen").cloned().unwrap_or(json!(0)),"sock":stype,"tag":sc.get("tag").cloned().unwrap_or(Value::Null)}));
     let ops: Vec<Value> = sc["ops"].as_array().cloned().unwrap_or_default();
     let mut i = 0usize;
+    let mut dropped: Option<Value> = None;
     while i < ops.len() {
         let op = &ops[i];
         i += 1;
         let name = op["op"].as_str().unwrap_or("").to_string();
+        if name == "drop_socket" {
+            dropped = Some(op.clone());
+            break;
+        }
         let topic_owned: String = op.get("t").and_then(|v| v.as_str()).unwrap_or("").to_string();
         let mut call: Option<Call<'_>> = match name.as_str() {
             "recv" | "recv_poll" => match sock.recv() {
@@ -859,6 +878,55 @@ pub async fn run_scenario(sc: &Value) -> Vec<Value> {
     }
     sim::settle().await;
     env.scan();
+    if let Some(op) = dropped {
+        // C17, in-memory: the application drops (or closes) the socket in the middle of the script; the harness keeps no
+        // reference to the backend either (the pending attach futures hold theirs, like the library's handshake tasks);
+        // the remaining ops are environment ops only (gate_release, settle, ...); at the end every half must be released
+        let how = op.get("how").and_then(|v| v.as_str()).unwrap_or("drop").to_string();
+        env.ev(json!({"ev":"sock_dropped","how":how,"state":op.get("state").cloned().unwrap_or(json!("?")),"handshakes_in_flight":env.attaching.len()}));
+        let dummy = AnySock::new("PULL", None);
+        env.backend = dummy.backend();
+        if how == "close" {
+            let mut f: BoxFut<'static, usize> = Box::pin(sock.close());
+            let w = CountWaker::new();
+            let mut polls = 0;
+            match drive_catch(&mut f, &w, 10_000, &mut polls).await {
+                Driven::Done(n) => env.ev(json!({"ev":"close_ret","res":"ok","errors":n})),
+                Driven::Stalled => env.ev(json!({"ev":"close_ret","res":"pending"})),
+                Driven::Panicked(m) => {
+                    take_panics();
+                    env.ev(json!({"ev":"panic","where":"close","msg":m}));
+                }
+            }
+        } else {
+            drop(sock);
+        }
+        sim::settle().await;
+        env.redrive_attaching().await;
+        env.scan();
+        while i < ops.len() {
+            let op2 = &ops[i];
+            i += 1;
+            if !env.env_op(op2).await {
+                env.ev(json!({"ev":"harness_error","what":format!("op {} after drop_socket", op2["op"].as_str().unwrap_or(""))}));
+            }
+            env.redrive_attaching().await;
+            env.scan();
+        }
+        gate().set_hold(None);
+        sim::settle().await;
+        let ids: Vec<i64> = env.attaching.keys().copied().collect();
+        for c in ids {
+            env.attach_drive(c).await;
+        }
+        let still = env.attaching.len();
+        env.attaching.clear(); // a handshake still blocked on its peer is owned by the harness here (F19 is judged on the real transport)
+        sim::settle().await;
+        env.scan();
+        env.ev(json!({"ev":"end","after_drop":true,"handshakes_abandoned":still}));
+        drop(dummy);
+        return std::mem::take(&mut env.out);
+    }
     let parts = env.partials();
     env.ev(json!({"ev":"quiescent","pending":"none","partials":parts,"final":true}));
     gate().set_hold(None);
